@@ -580,6 +580,12 @@ func (f *ccmFam) Gen(r *hx.Run) {
 			default:
 				rt = routers[rng.Intn(len(routers))]
 			}
+			if ethSetup[ch] {
+				// a chain whose light-client records were written by the eth router keeps that router: the routers share
+				// record families keyed only by the chain id, and another router reading eth-format header records is
+				// outside the properties checked here (observed: the zilliqa handlers dereference a nil BlockHeader)
+				rt = 2
+			}
 			chainRouter[ch] = rt
 			r.Do(fmt.Sprintf("reg %d %d", ch, rt))
 			if rt == 2 && !ethSetup[ch] && rng.Chance(3, 4) {
@@ -705,6 +711,12 @@ func (f *ccmFam) Gen(r *hx.Run) {
 					}
 				} else if ok && rt != 0 && rng.Bool() {
 					proof, hdr = rng.Bytes(rng.Intn(80)), rng.Bytes(rng.Intn(120))
+					if rt == 3 && len(hdr) > 37 {
+						// the ONT handler hands the header to ontology's CrossChainMsg.Deserialization, which allocates
+						// `make([][]byte, 0, n)` for an unchecked 64-bit n read at offset 37 (reported separately): keep
+						// the random header below that offset so that the harness itself stays within memory
+						hdr = hdr[:37]
+					}
 				}
 				nonce++
 				res := r.Do(f.importOp(nonce, signers, rl, cp.src, h, proof, hdr, cp.m, pv))
